@@ -526,6 +526,12 @@ class C18(Check):
                 except SimCrash:
                     crashed = True
                     st, v = "crash", None
+                if fs.dead and not crashed:
+                    # the crash fired inside a generator / __del__ clean-up,
+                    # where Python swallows exceptions: the process is dead
+                    # all the same (no raw call can succeed any more)
+                    crashed = True
+                    st, v = "crash", None
                 fired = dict(fs.fired)
                 fired_calls = list(fs.calls)
                 fs.end_window()
@@ -582,6 +588,16 @@ class C18(Check):
                     else:
                         res.probe("normal_return_effect_in_place")
 
+                # An injected ENOENT on a probe *means absence*.  If it hit
+                # the probe of `info` while a sharded dataset was being opened
+                # (only reachable with several faults: the first one makes
+                # the read of info fail, the ENOENT then answers the
+                # existence check), the accessor was told that the dataset
+                # has no info and legitimately took the documented plain
+                # fallback: the store then did happen, in the plain layout.
+                op["_told_absent"] = bool(absent_errno
+                                          and sc["kind"] == "sharded"
+                                          and len(plan) > 1)
                 # ---------- retries through the same handle ----------------
                 retried = None
                 if st == "exc" and not crashed and op["is_store"]:
@@ -926,7 +942,9 @@ class C18(Check):
             if crashed:
                 res.probe("target_new_after_crash" if is_new
                           else "target_old_after_crash")
-            if st == "ok" and not is_new:
+            if st == "ok" and not is_new and op.get("_told_absent"):
+                res.probe("sharded_store_after_info_reported_absent")
+            elif st == "ok" and not is_new:
                 res.violate(
                     "C18/normal-return-no-effect",
                     f"{where}: store returned normally although a fault "
@@ -940,7 +958,9 @@ class C18(Check):
                 res.probe("target_absent_after_crash" if got[0] == "absent"
                           else "target_invalid_after_crash")
                 res.probe("after_crash_read_raises_" + str(got[1]))
-            if st == "ok":
+            if st == "ok" and op.get("_told_absent"):
+                res.probe("sharded_store_after_info_reported_absent")
+            elif st == "ok":
                 res.violate(
                     "C18/normal-return-no-effect",
                     f"{where}: store returned normally although a fault "
